@@ -150,6 +150,11 @@ func replay(w *world) hx.Result {
 				"RequestBackfill for room %s returned event %s (the twin of event %d), a valid event of room %s: it does not belong to the room that is backfilled",
 				w.room, w.ids[k], k-100, w.twinRoom)
 		}
+		if !wantSet[k] && r.ev(k).F == "wrongroom" {
+			return w.failRoot("foreign-room-event-returned", want, gotSorted,
+				"RequestBackfill for room %s returned event %d (%s), which carries the room ID %s: it does not belong to the room that is backfilled",
+				w.room, k, typeOf(r.ev(k)), w.twinRoom)
+		}
 	}
 	for _, k := range got {
 		if !wantSet[k] && viaBadSig[k] && r.Cls[k-1] != "ok" {
